@@ -162,8 +162,8 @@ pub fn def(ctx: &Ctx) -> PropDef {
     let t = ctx.tier;
     let mut subs: Vec<Box<dyn SubCheck>> = Vec::new();
     let max_ops = t.pick(14, 40);
-    for part in 0..8 {
-        subs.push(PSub::boxed(format!("history/{}", part), t.pick(500, 40_000), move || strategy(max_ops), check));
+    for part in 0..16 {
+        subs.push(PSub::boxed(format!("history/{}", part), t.pick(1500, 150_000), move || strategy(max_ops), check));
     }
     if ctx.tier == crate::engine::Tier::Thorough {
         subs.push(crate::props::fuzzsub::FuzzSub::boxed("fz_jitter", "C12", 150000, false));
